@@ -32,6 +32,11 @@ func (v *FnVC) call(x *ssa.Call) {
 func (v *FnVC) callCommon(c *ssa.CallCommon, val ssa.Value, pos token.Pos, how string) []Term {
 	if b, ok := c.Value.(*ssa.Builtin); ok {
 		t := v.builtin(b, c, val, pos)
+		if b.Name() == "append" && t.S != "" {
+			// `assert-at after builtin.append#k : e` - the k-th append of the function in source order; call_result is the slice it returns
+			site := fmt.Sprintf("%s#%d", v.shortName(c), v.callOrdinal(c, v.shortName(c)))
+			v.runAnchored("after "+site, pos, map[string]Term{"call_result": t})
+		}
 		if t.S == "" {
 			return nil
 		}
